@@ -12,8 +12,12 @@ search: the property's oracle (window / last-page flag / stability / no duplicat
 import os
 import random
 import shutil
+import sys
 
 import vlib
+
+sys.path.insert(0, os.path.join(vlib.VERIF, "gen"))
+import menu_consts  # noqa: E402
 
 LEVEL = "proof"
 
@@ -484,12 +488,15 @@ def run_api(ctx, rmodel, exe, b, ncases):
 def run(ctx):
     ctx.coverage["trusted_base"] = [
         "Coq 8.16.1 kernel; no native_compute",
+        "translator gen/menu_consts.py (lexical: code-point ranges of is_extended_cjk in charset_filter.cc; refuses on any other shape)",
         "extraction: ExtrOcamlBasic only; ocaml/common/glue.ml + ocaml/c04/driver.ml are conversion glue",
         "harness/c04/c04.cc (ASan+UBSan build of /repo's working tree) for the correspondence",
     ]
     ctx.assumptions += [
         "correspondence is differential testing on generated cases; it validates model = code, it is not the proof",
     ]
+    ranges = menu_consts.generate()
+    ctx.coverage["translated_facts"] = {"is_extended_cjk_ranges": ["%X-%X" % r for r in (ranges or [])] or "REFUSED"}
     res = vlib.proof_stage(ctx, extra_targets=["MenuM/FuelProofs.vo"])
     proof_ok = res["ok"]
     if ctx.tier == "thorough" and proof_ok:
@@ -524,7 +531,7 @@ def run(ctx):
         "unit": stats, "api": astats, "exhaustive": False,
         "mutation_drills": MUTATION_DRILLS,
     })
-    if not proof_ok and not ctx.violations:
+    if not proof_ok:
         ctx.violation("proof:Properties_C04", "a proof obligation of Properties_C04.v no longer checks",
                       {"failed": res["failed"], "forbidden": res.get("forbidden"),
                        "log_tail": res["log"][-3000:] + ((res["props"] or {}).get("log", "")[-3000:])}, found_input=False)
@@ -547,6 +554,9 @@ MUTATION_DRILLS = [
     {"mutation": "uniquifier.cc: ignore yielded_ (revert of the fix 029a2eb)",
      "ran": "same", "fired": "VIOLATION with failing input: unit:duplicate-text:filters=us (and before the fix on /repo itself: "
                              "api:cangjie5:simplification=1:duplicate-text, input 'ob')"},
+    {"mutation": "charset_filter.cc is_extended_cjk: first range starts at 0x3401 instead of 0x3400",
+     "ran": "same", "fired": "VIOLATION no-failing-input-found: correspondence:c04-unit (U+3400 passes the real filter) and the "
+                             "translator-tied theorem C04_charset_ranges_current no longer checks"},
     {"mutation": "translation.cc MergedTranslation::Elect: Compare(...) < 0 instead of <= 0",
      "ran": "same", "fired": "VIOLATION no-failing-input-found: correspondence:c04-unit (merge order differs from the model; the property "
                              "itself does not depend on the merge order)"},
